@@ -25,14 +25,16 @@ ANCHORS = {
     'NmVerif.Reduce.accumulateElem/accumulate': 'view::accumulate_t::operator()',
 }
 MANIFEST = dict(
-    text='Proof: Lean theorems over every rank/extent/axis list and an arbitrary binary op (no commutativity or associativity assumed): '
-         'result shape = NumPy, each result element = left fold of exactly the source elements with matching non-reduced coordinates in '
-         'increasing C order, independence of the order of the axis list, accumulate = running fold, all addressed indices in bounds; '
-         'tied to the C++ by an exhaustive small-scope differential run of view::reduce/accumulate with an order-revealing functor and of '
-         'the named routines against NumPy on every check.',
+    text='Proof: 24 Lean theorems over every rank/extent/axis list and an arbitrary binary op (no commutativity or associativity assumed): '
+         'result shape = NumPy (single/multi/negative/unsorted axes, keepdims, None), each result element = left fold of exactly the source '
+         'elements with matching non-reduced coordinates in increasing C order, independence of the order of the axis list, accumulate = '
+         'running fold, all addressed indices in bounds, sum/prod/amax/amin/cumsum/cumprod as instances, mean/var/stddev/vector_norm as '
+         'plumbing statements over abstract element operations; tied to the C++ by an exhaustive small-scope differential run of '
+         'view::reduce/accumulate with an order-revealing functor and of the named routines against NumPy on every check.',
     note='Lean kernel + propext/Classical.choice/Quot.sound; model hand-written, fidelity rests on the correspondence run; slicing by in-range '
-         '(start,stop) pairs is taken as C05 proves it; float routines (mean/var/stddev/vector_norm) are compared with NumPy under a tolerance, '
-         'trace has no Lean statement; fixed-shape and clipped container kinds are in C09.',
+         '(start,stop) pairs is taken as C05 proves it, the broadcast inside var as C06 proves it; float arithmetic of mean/var/stddev/vector_norm '
+         'is compared with NumPy under a tolerance; trace has no Lean statement; two genuine defects listed as known findings '
+         '(accumulate with a negative axis, trace with a negative offset); fixed-shape and clipped container kinds are in C09.',
     technique='Lean 4 induction proofs over List Nat shapes + differential correspondence (exhaustive small scope) + NumPy oracle')
 ASSUMPTIONS = ['apply_slice with in-range pairs 0 <= start < stop <= extent has shape stop-start and reads start+d (C05 domain theorem; observed here through every element of every reduction)',
                'uint32 arithmetic of the order-revealing functor is modelled as Nat mod 2^32',
